@@ -57,11 +57,18 @@ def chunkings(rng, stream):
     return [stream[:n // 2], stream[n // 2:]]
 
 
+BOUNDARY = [256, 512, 1024, 2048, 4096, 4096, 4096 + 8, 8192]
+BOUNDARY_BIG = [16384, 32768, 65536]
+
+
 def gen_op(rng):
     msgs = []
     for _ in range(rng.randint(0, 5)):
         ty = rng.choice([0, 1, 2, 2, 2, 3, 0xFFFFFFFF, rng.randrange(2 ** 32)])
         body = bytes(rng.randrange(256) for _ in range(rng.choice([0, 0, 1, 2, 3, 7, 8, 9, 16, 40])))
+        if rng.random() < 0.03:      # lengths around the sizes at which buffers are typically cut (replies echo the length)
+            n = rng.choice(BOUNDARY_BIG if rng.random() < 0.06 else BOUNDARY) + rng.randint(-9, 2)
+            body = bytes([rng.choice([0, 2, 4, 1])]) + bytes(rng.randrange(256) for _ in range(max(n - 1, 0)))
         msgs.append(frame(ty, body))
     stream = b"".join(msgs)
     k = rng.random()
